@@ -34,6 +34,7 @@ SIG_PANDAS = 'C12|PandasIndexFeaturesMixin.reindex|default-fill-not-dtype-defaul
 SIG_OBJ = 'C12|reindex(object-dtype series)|cells-shared-with-original'
 SIG_SPAN = 'C12|reindex(span=self.span)|span-object-shared-with-original'
 SIG_PANDAS_STATUS = 'C12|PandasIndexFeaturesMixin.reindex|status/iterations-keyword-ignored-or-rejected'
+SIG_TUPLE = 'C12|reindex(ndarray old span, tuple label in new span)|broadcast-aliases-a-period-or-KeyError'
 
 
 # --------------------------------------------------------------------------- values
@@ -59,9 +60,9 @@ def c_fl(x):
     if x in (float('inf'), float('-inf')):
         return '(FInf %s)' % lib.cbool(x < 0)
     t = 2 * x
-    if t != int(t) or abs(t) > 2 ** 62:
+    if t != int(t):
         return None
-    return '(FNum %s)' % lib.cZ(int(t))
+    return '(FNum %s)' % lib.cZ(int(t))          # exact: a double is a dyadic rational, int() of an integral one is exact
 
 
 def c_pv(j):
@@ -131,6 +132,25 @@ def c_dtype(s):
 
 def c_cells(cells):
     out = [c_cell(x) for x in cells]
+    return None if any(x is None for x in out) else lib.clist(out)
+
+
+def c_obj_cell(j):
+    """cell of an object-dtype array: a plain Python value (CV) or a reference (CO)"""
+    if j[0] == 'o':
+        return '(CO %d)' % j[1]
+    if j[0] == 'none':
+        return '(CV PNone)'
+    if j[0] == '?':
+        return None
+    v = c_pv(j)
+    return None if v is None else '(CV %s)' % v
+
+
+def c_cells_dt(cells, dt):
+    if dt != 'object':
+        return c_cells(cells)
+    out = [c_obj_cell(x) for x in cells]
     return None if any(x is None for x in out) else lib.clist(out)
 
 
@@ -259,11 +279,11 @@ def impl(case):
         for i, call in enumerate(calls):
             fv = call[2]
             fvj = None if fv is None else enc_cell(fv)
+            dt = c[names[i]].dtype if i < len(names) else None          # the i-th call reindexes Series(self[names[i]])
             if call[3][0] == 'raise':
-                obs['series_calls'].append([call[0], call[1], fvj, ['raise', call[3][1]]])
+                obs['series_calls'].append([str(dt), call[0], call[1], fvj, ['raise', call[3][1]]])
                 continue
-            obs['series_calls'].append([call[0], call[1], fvj, ['ret', call[3][1]]])
-            dt = c[names[i]].dtype if i < len(names) else None
+            obs['series_calls'].append([str(dt), call[0], call[1], fvj, ['ret', call[3][1]]])
             if dt is not None:
                 arr = np.zeros(len(new), dtype=dt)
                 try:
@@ -301,7 +321,8 @@ def impl(case):
             if v is w and isinstance(v, (list, dict, set, np.ndarray)):
                 shared.append('attribute %s' % k)
         if r.span is c.span:
-            shared.append('span')
+            # an immutable span object (range, tuple, pandas Index) cannot carry state from one object to the other
+            shared.append('span' if isinstance(c.span, (list, np.ndarray)) else 'immutable-span')
         obs['shared'] = shared
         # the original must not move when the result is overwritten
         for name in r.index:
@@ -327,7 +348,7 @@ Open Scope Z_scope.
 def c_view(snapshot, with_id):
     items = []
     for k, (name, dt, cells) in enumerate(snapshot):
-        d, cs = c_dtype(dt), c_cells(cells)
+        d, cs = c_dtype(dt), c_cells_dt(cells, dt)
         if d is None or cs is None:
             return None
         if with_id:
@@ -377,12 +398,12 @@ def c_case(case, obs):
     else:
         p = case.get('pandas', {})
         srt, act = [], []
-        for d, m, f, res in obs['series_calls']:
-            cd, cr = c_cells(d), c_res(res)
+        for sdt, d, m, f, res in obs['series_calls']:
+            cd, cr, csdt = c_cells(d), c_res(res), c_dtype(sdt)
             cf = 'PNone' if f is None else {'none': 'PNone'}.get(f[0]) or c_pv(f)
-            if cd is None or cr is None or cf is None:
+            if cd is None or cr is None or cf is None or csdt is None:
                 return None
-            srt.append('((%s, %s, %s), %s)' % (cd, c_ostr(m), cf, cr))
+            srt.append('((%s, %s, %s, %s), %s)' % (csdt, cd, c_ostr(m), cf, cr))
         for dt, d, res in obs['assign_casts']:
             cd, cr, cdt = c_cells(d), c_res(res), c_dtype(dt)
             if cd is None or cr is None or cdt is None:
@@ -461,14 +482,20 @@ def _same_cell(a, b):
 def oracle(case, obs):
     fails = []
 
+    new_spec = case['old'] if case.get('same_span_object') else case['new']
+    # kept finding: `period in span` and the fallback lookup broadcast a tuple label against a NumPy-array span
+    tuple_on_arr = case['old']['type'] == 'nparr' and any(j[0] == 'p' for j in lc.span_labels(new_spec))
+
     def bad(site, cls, what):
-        fails.append({'sig': 'C12|%s|%s' % (site, cls), 'what': what})
+        if tuple_on_arr and cls in ('wrong-fill', 'unexpected-KeyError', 'unexpected-IndexError', 'unexpected-ValueError'):
+            fails.append({'sig': SIG_TUPLE, 'what': what})
+        else:
+            fails.append({'sig': 'C12|%s|%s' % (site, cls), 'what': what})
     if obs.get('timeout'):
         bad('any', 'timeout', 'no answer within the watchdog limit')
         return fails
     cls = case['cls']
     is_model = cls != 'VC'
-    new_spec = case['old'] if case.get('same_span_object') else case['new']
     old_labs = [lc.canon(j) for j in lc.span_labels(case['old'])]
     new_labs = [lc.canon(j) for j in lc.span_labels(new_spec)]
     names = [v[0] for v in obs['old_vars']]
@@ -503,7 +530,7 @@ def oracle(case, obs):
         # an exception is legitimate only when some fill value cannot be converted to its variable's dtype,
         # or (duplicate / unhashable-comparison corner of the old span) the lookup itself fails
         convertible = all(fill_of(n, dt) != 'skip' for n, dt, _ in obs['old_vars'])
-        if convertible and not dup_old and not any(j[0] == 'p' for j in lc.span_labels(new_spec)):
+        if convertible and not dup_old:
             bad(site, 'unexpected-' + obs['out'][1], 'reindex raised %s although every fill value fits its variable' % obs['out'][1])
         return fails
     if not obs['same_class']:
@@ -547,6 +574,8 @@ def oracle(case, obs):
                 fails.append({'sig': SIG_SPAN, 'what': 'result.span is the original\'s span object'})
             else:
                 bad(site, 'shared-span', 'result.span is the original\'s span object')
+        elif s == 'immutable-span':
+            pass
         elif s.startswith('object cells'):
             fails.append({'sig': SIG_OBJ, 'what': s + ' are the same objects in the original and the result'})
         else:
